@@ -11,6 +11,7 @@ import (
 
 	"github.com/vedadiyan/genql"
 	"pgregory.net/rapid"
+	"verifharness/selref"
 	"verifharness/val"
 )
 
@@ -31,6 +32,10 @@ type C13Q struct {
 	Arrays    bool   `json:"arrays,omitempty"` // IdiomaticArrays on
 	// Cells: cells of sinkCells that the query's vf_sink calls must have set by the time Exec returns
 	Cells []int `json:"cells,omitempty"`
+	// Ref (path selectors): the selector in structured form; every outcome, concurrent or alone, is also judged
+	// by the reference evaluator of the documented meaning - what a selector text means does not depend on the
+	// documents other callers evaluated it on
+	Ref *selref.Selector `json:"ref,omitempty"`
 }
 
 type C13Batch struct {
@@ -241,12 +246,46 @@ func genC13(t *rapid.T) any {
 				q.SQL = rapid.SampledFrom([]string{"t[0]." + sc.k, "t." + sc.s, "t[each]." + sc.items + "[0]." + sc.p, "t[0:1]", "t2[each]." + sc.t2c, "t.{" + sc.k + "|string}", "mix=>t." + sc.items, "t[(0:1)]." + sc.v,
 					"t::[0]", "t." + sc.k + "::[0]", "t[each]." + sc.items + "::[0]", "t2::[each]." + sc.t2c, "t::[0]::" + sc.s, "t." + sc.items + "::[0]::[0]." + sc.p}).Draw(t, "selector")
 			}
+			if q.Selector && rapid.IntRange(0, 2).Draw(t, "refsel") == 0 {
+				// open-ended ranges over tables whose lengths differ from document to document, judged by the reference
+				tbl := rapid.SampledFrom([]string{"t", "t", "t2"}).Draw(t, "refsel.tbl")
+				d := selref.Dim{K: "range", From: -1, To: -1}
+				switch rapid.IntRange(0, 3).Draw(t, "refsel.form") {
+				case 0:
+					d.From = 1
+				case 1:
+					d.From = 0
+				case 2:
+					d.To = 1
+				default:
+					d.From, d.To = 1, 2
+				}
+				steps := []selref.Step{{K: "key", Key: tbl}, {K: "idx", Dims: []selref.Dim{d}}}
+				if rapid.Bool().Draw(t, "refsel.key") {
+					steps = append(steps, selref.Step{K: "key", Key: map[string]string{"t": sc.k, "t2": sc.t2c}[tbl]})
+				}
+				q.Ref = &selref.Selector{Parts: []selref.Part{{Steps: steps}}}
+				q.SQL = q.Ref.String()
+			}
 			if !q.Selector && !w.Wrapped && rapid.IntRange(0, 4).Draw(t, "chained") == 0 {
 				// a chained selector (`::`) as FROM path: parsed link by link on first use
 				q.SQL = strings.Replace(q.SQL, " FROM t", " FROM `t::[0:"+fmt.Sprint(rapid.IntRange(1, 3).Draw(t, "chainhi"))+"]`", 1)
 			}
 			if suffix != "" {
 				q.SQL = renameCols(q.SQL, names, suffix)
+				if q.Ref != nil {
+					for pi := range q.Ref.Parts {
+						for si := range q.Ref.Parts[pi].Steps {
+							st := &q.Ref.Parts[pi].Steps[si]
+							for _, n := range names {
+								if st.K == "key" && st.Key == n {
+									st.Key = n + suffix
+								}
+							}
+						}
+					}
+					q.SQL = q.Ref.String()
+				}
 			}
 			if !q.Selector && !strings.ContainsAny(q.SQL, "\"[]") && rapid.IntRange(0, 2).Draw(t, "dialect") == 0 {
 				// the text-rewriting options run inside New for every query built with them (the text uses neither spelling)
@@ -416,6 +455,27 @@ func runBatch(job *WJob) WResult {
 					res.Status = "panic"
 					res.Detail = fmt.Sprintf("goroutine %d, query %d (%s): %s", g, i, q.SQL, got.Detail)
 					return res
+				}
+				if q.Ref != nil {
+					want, err := selref.Eval(q.Ref, b.Docs[q.Doc])
+					bad := ""
+					switch err.(type) {
+					case nil:
+						if got.Status != "ok" || !val.Equal(val.Norm(got.Value), val.Norm(want)) {
+							wj, _ := json.Marshal(want)
+							bad = "the documented meaning gives " + truncate(string(wj), 600)
+						}
+					case *selref.MustFail:
+						if got.Status == "ok" {
+							bad = "the documented meaning prescribes an error"
+						}
+					}
+					if bad != "" {
+						res.Status = "mismatch"
+						gj, _ := json.Marshal(map[string]any{"status": got.Status, "value": got.Value, "detail": got.Detail})
+						res.Detail = fmt.Sprintf("goroutine %d, query %d, repetition %d: selector %s\n  concurrently: %s\n  %s", g, i, r, q.SQL, truncate(string(gj), 1500), bad)
+						return res
+					}
 				}
 				if !c13Same(q, got, ref) {
 					res.Status = "mismatch"
